@@ -148,9 +148,19 @@ func dump(args []string) {
 	dir := fs.String("dir", "/repo", "module dir")
 	pat := fs.String("pkgs", "./modules/...", "package patterns")
 	rets := fs.Bool("rets", false, "print return alternatives")
+	patch := fs.String("patch", "", "apply this patch in memory first")
 	fs.Parse(args)
 	t0 := time.Now()
-	P, err := load.Load(load.Config{Dir: *dir, Patterns: strings.Split(*pat, ",")})
+	var overlay map[string][]byte
+	if *patch != "" {
+		ov, _, err := rules.OverlayFromPatch("/repo", *patch)
+		if err != nil {
+			fmt.Println("patch:", err)
+			os.Exit(2)
+		}
+		overlay = ov
+	}
+	P, err := load.Load(load.Config{Dir: *dir, Patterns: strings.Split(*pat, ","), Overlay: overlay})
 	if err != nil {
 		fmt.Println("load error:", err)
 		os.Exit(1)
